@@ -5,6 +5,19 @@ moved into a helper.  `helpers(prog, keep)` inlines every crate-local function o
 itself names (`keep`: path suffixes), closures, public API functions (stable anchors) and large bodies."""
 
 
+# Functions the rule modules look up by name (their anchors).  They are never walked into, whatever their visibility:
+# narrowing `pub fn` to `pub(crate) fn` must not make an anchor disappear into its caller.
+ANCHORS = ("Operator::split_head_tail", "get_floats", "get_integers", "get_numbers", "get_two_constants", "unify_sfunction",
+           "recreate_variables", "recreate_vars_goals", "recreate_vars_terms", "check_arithmetic_infix", "check_infix", "add_rules",
+           "count_rules", "get_rule", "next_id", "set_var_id", "get_var_id", "clear_id", "get_left_and_right", "make_goal",
+           "parse_operator_goal", "parse_subgoal", "make_term", "parse_term", "make_query", "parse_query", "format_solution",
+           "get_constant", "get_ground_term", "cancel_timer", "query_stopped", "start_query_timer", "stop_query", "start_query",
+           "Unifiable::unify", "replace_variables", "make_linked_list", "next_solution", "next_solution_and", "next_solution_or",
+           "next_solution_bip", "next_solution_print", "make_solution_node", "make_base_node", "set_no_backtracking",
+           "format_for_print_pred", "solve", "solve_all", "evaluate_add", "evaluate_subtract", "evaluate_multiply",
+           "evaluate_divide", "evaluate_join")
+
+
 def helpers(prog, keep=(), max_blocks=120, private_only=True):
     idx = {}
     for b in prog.lib_bodies():
@@ -24,6 +37,10 @@ def helpers(prog, keep=(), max_blocks=120, private_only=True):
             return None
         for k in keep:
             if name.endswith(k):
+                return None
+        last = name.split("::")[-1]
+        for k in ANCHORS:
+            if name == k or name.endswith("::" + k) or last == k:
                 return None
         if len(b.blocks) > max_blocks or (private_only and b.is_pub):
             return None
